@@ -48,6 +48,17 @@ class NamedTupleCls:
         return "<namedtuple %s%s>" % (self.name, self.fields)
 
 
+class GenV:
+    """what calling a generator function of the repository returns: nothing has run yet; the body runs where the value is iterated (st_For fuses it)"""
+    __slots__ = ("func", "selfobj", "bound")
+
+    def __init__(self, func, selfobj, bound):
+        self.func, self.selfobj, self.bound = func, selfobj, bound
+
+    def __repr__(self):
+        return "<generator %s>" % self.func.qname
+
+
 class Closure:
     __slots__ = ("node", "env", "ctx", "locals")
 
@@ -1067,7 +1078,7 @@ class Interp:
     def _collected(self, n, env, ctx):
         """list(G) / set(G) / tuple(G) / sorted(G) with G a generator of this module (a generator function call, or an object whose __iter__ is one):
         the elements are collected by the loop `for x in G: tmp.append(x)`, which the generator fusion reads -> the AST of the collection, or None"""
-        if not (isinstance(n.func, ast.Name) and n.func.id in ("list", "set", "tuple", "sorted", "frozenset") and n.func.id not in env and len(n.args) == 1 and not n.keywords):
+        if not (isinstance(n.func, ast.Name) and n.func.id in ("list", "set", "tuple", "sorted", "frozenset", "sum", "max", "min") and n.func.id not in env and len(n.args) == 1 and not n.keywords):
             return None
         g = n.args[0]
         if isinstance(g, (ast.GeneratorExp, ast.ListComp, ast.Starred)) or "$outer" in env:
@@ -1098,7 +1109,7 @@ class Interp:
 
     def ev_Call(self, n, env, ctx):
         self.call_sites += 1
-        if isinstance(n.func, ast.Name) and n.func.id in ("list", "set", "tuple", "sorted", "frozenset"):
+        if isinstance(n.func, ast.Name) and n.func.id in ("list", "set", "tuple", "sorted", "frozenset", "sum", "max", "min"):
             got = self._collected(n, env, ctx)
             if got is not None:
                 return got
@@ -1427,6 +1438,8 @@ class Interp:
         bound = self.bind_args(func, posparams, dmap, func.vararg, func.kwarg, args, kwargs, n, ctx,
                                lambda p: self.h_missing_arg(func, p, n, ctx))
         bound = {p: self.h_param(func, p, v, ctx) for p, v in bound.items()}
+        if getattr(func, "is_generator", False) and not func.decorators and not func.vararg and not func.kwarg:
+            return GenV(func, selfobj, bound)                # a generator object: the body has not started
         summ = self.summary(func, selfobj, bound, env, ctx, n)
         self._last_call = (summ, bound)
         self.h_apply_effects(summ.effects, func, bound, n, env, ctx)
@@ -1881,6 +1894,7 @@ class Interp:
             return isinstance(e, ast.Name)
         if s.orelse:
             return None
+        genv = None
         if not isinstance(it, ast.Call):
             # `for x in obj` with obj an instance of a class of this module whose __iter__ is a generator: the loop over obj.__iter__()
             if not plain(it) or (isinstance(it, ast.Name) and it.id not in env):
@@ -1889,10 +1903,15 @@ class Interp:
                 ov = self.ev(it, env, ctx)
             except Inconclusive:
                 return None
-            if not isinstance(ov, ObjV) or self.prog.method(ov.module, ov.cls, "__iter__") is None:
-                return None
-            it = ast.copy_location(ast.Call(ast.Attribute(it, "__iter__", ast.Load()), [], []), it)
-            ast.fix_missing_locations(it)
+            if isinstance(ov, GenV):
+                genv = ov
+            if genv is None:
+                if not isinstance(ov, ObjV) or self.prog.method(ov.module, ov.cls, "__iter__") is None:
+                    return None
+                it = ast.copy_location(ast.Call(ast.Attribute(it, "__iter__", ast.Load()), [], []), it)
+                ast.fix_missing_locations(it)
+        if genv is not None:
+            return self._fuse_body(s, genv.func, counter, None, ctx, env, values=dict(genv.bound, **({genv.func.posparams[0]: genv.selfobj} if genv.func.is_method else {})))
         if not isinstance(it.func, (ast.Name, ast.Attribute)):
             return None
         if isinstance(it.func, ast.Name) and (it.func.id in env or ctx.func is not None and it.func.id in ctx.func.locals):
@@ -1911,8 +1930,14 @@ class Interp:
             if not isinstance(ov, ObjV):
                 return None
             func = self.prog.method(ov.module, ov.cls, it.func.attr)
-        if func is None or not getattr(func, "is_generator", False) or func.module is not ctx.mod or func.decorators or func.qname in ctx.stack or \
+        return self._fuse_body(s, func, counter, it, ctx, env)
+
+    def _fuse_body(self, s, func, counter, it, ctx, env, values=None):
+        import copy
+        if func is None or not getattr(func, "is_generator", False) or func.decorators or func.qname in ctx.stack or \
                 (ctx.func is not None and func.qname == ctx.func.qname) or func.vararg or func.kwarg:
+            return None
+        if values is None and func.module is not ctx.mod:
             return None
         from .loader import _own_nodes
 
@@ -1929,39 +1954,64 @@ class Interp:
                                                              [y for x in sub if isinstance(x, ast.ExceptHandler) for y in x.body]):
                         return True
             return False
-        if leaves_loop(s.body):
-            return None
+        body_ = s.body
+        if leaves_loop(body_):
+            # guard clauses at the top level of BODY (`if c: continue`) are the rest of BODY under `else`; anything else that leaves the loop is not read
+            def unguard(stmts):
+                out_ = []
+                for k_, st in enumerate(stmts):
+                    if isinstance(st, ast.If) and not st.orelse and len(st.body) == 1 and isinstance(st.body[0], ast.Continue):
+                        rest = unguard(stmts[k_ + 1:])
+                        if rest is None:
+                            return None
+                        out_.append(ast.copy_location(ast.If(st.test, [ast.copy_location(ast.Pass(), st)], rest or [ast.copy_location(ast.Pass(), st)]), st))
+                        return out_
+                    out_.append(st)
+                return None if leaves_loop(out_) else out_
+            body_ = unguard(list(body_))
+            if body_ is None:
+                raise Inconclusive("a loop over a generator of the repository leaves its body by break / continue in a way the generator fusion does not read", s)
+            s = copy.copy(s)
+            s.body = body_
         for n in _own_nodes(func.node):
-            if isinstance(n, (ast.Return, ast.YieldFrom, ast.Try, ast.With, ast.Global, ast.Nonlocal)):
+            if isinstance(n, (ast.Return, ast.Try, ast.With, ast.Global, ast.Nonlocal)):
                 return None
-        yields = [n for n in _own_nodes(func.node) if isinstance(n, ast.Yield)]
-        stmt_yields = [n for n in _own_nodes(func.node) if isinstance(n, ast.Expr) and isinstance(n.value, ast.Yield)]
+        yields = [n for n in _own_nodes(func.node) if isinstance(n, (ast.Yield, ast.YieldFrom))]
+        stmt_yields = [n for n in _own_nodes(func.node) if isinstance(n, ast.Expr) and isinstance(n.value, (ast.Yield, ast.YieldFrom))]
         if len(yields) != len(stmt_yields) or any(y.value.value is None for y in stmt_yields):
             return None
         # bind the arguments
         params = list(func.posparams)
         pre = "_g%d_" % getattr(s, "lineno", 0)
         binds = []
-        args = list(it.args)
-        if any(isinstance(a, ast.Starred) for a in args) or any(k.arg is None for k in it.keywords):
-            return None
-        if func.is_method:
-            binds.append((params[0], it.func.value))
-            params = params[1:]
-        if len(args) > len(params):
-            return None
-        given = dict(zip(params, args))
-        for k in it.keywords:
-            if k.arg in given or k.arg not in params + list(func.kwonly):
+        if values is not None:
+            # the generator object was created earlier: its arguments are values, bound directly
+            if func.module is not ctx.mod and any(isinstance(n, ast.Name) and n.id not in func.locals and n.id not in params and n.id not in func.kwonly and
+                                                  n.id in func.module.globals for n in _own_nodes(func.node)):
+                return None            # free names would resolve in another module
+            for p_, v_ in values.items():
+                env[pre + p_] = v_
+        else:
+            args = list(it.args)
+            if any(isinstance(a, ast.Starred) for a in args) or any(k.arg is None for k in it.keywords):
                 return None
-            given[k.arg] = k.value
-        for p_ in params + list(func.kwonly):
-            if p_ in given:
-                binds.append((p_, given[p_]))
-            elif p_ in func.defaults:
-                binds.append((p_, func.defaults[p_]))
-            else:
+            if func.is_method:
+                binds.append((params[0], it.func.value))
+                params = params[1:]
+            if len(args) > len(params):
                 return None
+            given = dict(zip(params, args))
+            for k in it.keywords:
+                if k.arg in given or k.arg not in params + list(func.kwonly):
+                    return None
+                given[k.arg] = k.value
+            for p_ in params + list(func.kwonly):
+                if p_ in given:
+                    binds.append((p_, given[p_]))
+                elif p_ in func.defaults:
+                    binds.append((p_, func.defaults[p_]))
+                else:
+                    return None
         glocals = set(func.locals) | set(func.posparams) | set(func.kwonly)
 
         class Ren(ast.NodeTransformer):
@@ -1989,6 +2039,13 @@ class Interp:
                 return n
 
             def visit_Expr(self, n):
+                if isinstance(n.value, ast.YieldFrom):
+                    # yield from X  is  for v in X: yield v
+                    v_ = pre + "yf%d" % getattr(n, "lineno", 0)
+                    inner = ast.Expr(ast.Yield(ast.Name(v_, ast.Load())))
+                    loop = ast.For(ast.Name(v_, ast.Store()), n.value.value, [ast.copy_location(inner, n)], [], None)
+                    loop.body = [x for y in [self.visit_Expr(loop.body[0])] for x in (y if isinstance(y, list) else [y])]
+                    return [ast.copy_location(loop, n)]
                 if not isinstance(n.value, ast.Yield):
                     return n
                 val = n.value.value
